@@ -46,6 +46,30 @@ def run(facts, R):
     for f in ("chunks", "bytes_held", "capacity_bytes"):
         facts.require_field(RING, f)
 
+    # ---------- capacity-is-fixed: "never holds more than its byte capacity" is about the capacity the ring was built with.
+    # Inside a live control (a function working under the state lock) a ring may be rebuilt (`advance_to_file` starting over), but
+    # only with the capacity the old ring had; the capacity field itself is never stored to outside ReplayRing::new
+    n_cap = 0
+    for b_ in facts.bodies.values():
+        if not b_.path.startswith("stream::"):
+            continue
+        locks_ = [1 for _, t_ in b_.calls() if t_["callee"]["name"] == "lock" and "Mutex" in t_["callee"]["path"]]
+        if not locks_:
+            continue
+        s_ = Sym(b_)
+        for i_, t_ in b_.calls():
+            if callee_matches(t_["callee"], RING + "::new") and t_["args"]:
+                n_cap += 1
+                from analysis.sym import split_eval as _se
+                alts_ = (_se(s_, i_, len(b_.blocks[i_]["stmts"]), lambda v_: v_.op(t_["args"][0])) if getattr(b_, "changed", False) else None) or [({}, s_.op(t_["args"][0]))]
+                for _, v_ in alts_:
+                    R.check(_is_f(v_, "capacity_bytes") and "lock(" in render(v_), "evict-discipline", b_.path, "a rebuilt ring keeps the configured capacity",
+                            "the replay ring of a live control is rebuilt with capacity %s" % render(v_)[:120], t_.get("span"), "ReplayRing::new(old.capacity_bytes)")
+    for w in field_writes(facts, RING, "capacity_bytes"):
+        if w["body"].path != RING + "::new":
+            n_cap += 1
+            R.bad("evict-discipline", w["body"].path, "capacity is fixed", "ReplayRing.capacity_bytes is written outside ReplayRing::new", w.get("span"))
+
     # ---------- resume-gate ----------------------------------------------------------------------
     rr = facts.body(TC + "::request_resume")
     sym = Sym(rr)
